@@ -33,7 +33,7 @@ pub fn oneshot(_sub: &str, _rest: &[String]) -> Option<String> {
 pub fn dispatch(sub: &str, rest: &[String], line: &str) -> Option<String> {
     match sub {
         "print07" => Some(print07(line, rest.iter().any(|a| a == "--comments"))),
-        "format07" => Some(format07(line)),
+        "format07" => Some(format07(line, rest.iter().any(|a| a == "--leading-minus"))),
         "ast07eq" => Some(ast07eq(line)),
         _ => None,
     }
@@ -383,7 +383,9 @@ fn print07(line: &str, comments: bool) -> String {
 
 // ------------------------------------------------------------------ FORMAT drivers
 /// blots-wasm/src/lib.rs::format_blots, statement loop mirrored (the crate is a cdylib).
-fn lib_driver(src: &str, max_columns: Option<usize>) -> Result<String, &'static str> {
+/// `leading_minus`: the copy follows fixes/C07-leading-minus.diff (the check passes --leading-minus
+/// when blots-wasm/src/lib.rs of the tree under test calls protect_leading_minus).
+fn lib_driver(src: &str, max_columns: Option<usize>, leading_minus: bool) -> Result<String, &'static str> {
     let pairs = get_pairs(src).map_err(|_| "REJECT")?;
     let mut formatted_statements = Vec::new();
     for pair in pairs {
@@ -405,6 +407,11 @@ fn lib_driver(src: &str, max_columns: Option<usize>) -> Result<String, &'static 
                         format_expr(&expr, max_columns)
                     }
                 };
+                let formatted = if leading_minus && !formatted_statements.is_empty() && formatted.starts_with('-') {
+                    format!("({})", formatted)
+                } else {
+                    formatted
+                };
                 let final_formatted = if let Some(eol_comment) = inner_pairs.next() {
                     if eol_comment.as_rule() == Rule::comment {
                         format!("{}  {}", formatted, eol_comment.as_str())
@@ -424,7 +431,7 @@ fn lib_driver(src: &str, max_columns: Option<usize>) -> Result<String, &'static 
     Ok(join_statements_with_spacing(&formatted_statements))
 }
 
-fn format07(line: &str) -> String {
+fn format07(line: &str, leading_minus: bool) -> String {
     let mut parts = line.split('\t');
     let src = match parts.next().and_then(text_of) {
         Some(s) => s,
@@ -436,7 +443,7 @@ fn format07(line: &str) -> String {
         Err(e) => return e.into(),
     };
     let w = if width == 0 { None } else { Some(width) };
-    let (lv, lt) = match lib_driver(&src, w) {
+    let (lv, lt) = match lib_driver(&src, w, leading_minus) {
         Ok(t) => (verdict(&orig, &t), t),
         Err(e) => (e, String::new()),
     };
